@@ -1,13 +1,14 @@
 SPECIFICATION Spec
 CONSTANTS
-  Kinds <- KMapDyn
+  Kinds <- KMapFast
   Arities = {1, 2}
   NXs = {0}
-  K = 3
-  MaxHist = 3
+  K = 2
+  MaxHist = 4
   MaxCells = 9
-  OpClasses <- OpsTable
+  OpClasses <- OpsHistTable
   EmitMode <- ModeNone
+  Plans <- NoPlans
 CONSTRAINT Bound
 VIEW histvars
-INVARIANTS TypeOK RegIsHistory DispatchExact
+INVARIANTS TypeOK RegIsHistory TablesAreHistory DispatchExact
